@@ -26,17 +26,38 @@ def encModel (l : List (DS.DSetData × Nat)) : String :=
     l.flatMap fun (ds, c) =>
       toString ds.size :: toString ds.dim :: toString c :: ds.op.toList.map toString)
 
+/-- lexicographic `≤` on token lists (driver-side canonicalisation only) -/
+def lexLe : List Nat → List Nat → Bool
+  | [], _ => true
+  | _ :: _, [] => false
+  | a :: as, b :: bs => if a < b then true else if b < a then false else lexLe as bs
+
+/-- The property (C06) fixes the emitted D-sets only as a SET — "numbered consecutively from 1"
+    is a Spec clause on the emission order the implementation chose — so the model/implementation
+    comparison is made on the lists sorted by (size, dim, op table), counters dropped.  When they
+    agree the implementation's own tokens are echoed as the model payload; otherwise the model's
+    emission is printed, so that the orchestrator reports the disagreement with both sides. -/
+def sameAsSets (model : List (DS.DSetData × Nat)) (es : List Emitted) : Bool :=
+  let km := (model.map fun (ds, _) => ds.size :: ds.dim :: ds.op.toList).mergeSort lexLe
+  let ke := (es.map fun e => e.size :: e.dim :: e.op.toList).mergeSort lexLe
+  km == ke
+
 def handler : Handler := fun op inp out =>
   let bad := ("-", fail "driver-cannot-parse-input")
   match op with
   | "gen" =>
     match run (do let dim ← P.nat; let max ← P.nat; pure (dim, max)) inp with
     | some (dim, max) =>
-      let model := match DSG.dsetsNumbered dim max with
+      let ml := DSG.dsetsNumbered dim max
+      let model := match ml with
         | some l => encModel l
         | none => "PANIC"
       match run parseEmitted out with
-      | some es => (model, check (genClauses dim max es))
+      | some es =>
+        let model := match ml with
+          | some l => if sameAsSets l es then joinToks out.toList else model
+          | none => model
+        (model, check (genClauses dim max es))
       | none => (model, fail "no-sequence-returned-or-panic")
     | none => bad
   | "hit" =>
